@@ -66,6 +66,22 @@ def monitor(c):
     return None
 
 
+def add_levels(rng, w):
+    """level declarations at every depth: on enclosing suites (wrapping a module's suites once more), on inner
+    suites and on leaves, incl. 0 and levels that go down again below a higher one"""
+    def deco(node, depth):
+        if rng.random() < 0.4:
+            node["lvl"] = rng.choice([0, 1, 2, 2, 3])
+        if node["t"] == "node":
+            for k in node["kids"]:
+                deco(k, depth + 1)
+    for m in w["modules"].values():
+        if m["suites"] and rng.random() < 0.5:
+            m["suites"] = [{"t": "node", "kids": m["suites"], "lyr": None, "lvl": rng.choice([None, 2, 3])}]
+        for s_ in m["suites"]:
+            deco(s_, 0)
+
+
 def gen_cases(ctx):
     rng = ctx.rng
     n = 60 if ctx.quick() else 1500
@@ -77,8 +93,19 @@ def gen_cases(ctx):
             for l in w["layers"]:
                 if l["kind"] != "unit" and l["tearDown"] and rng.random() < 0.4:
                     l["tearDownFaults"] = [[rng.choice([0, 999999]), 2]]
+        if rng.random() < 0.45:
+            add_levels(rng, w)
         o = worlds.gen_opts(rng, allow=("repeat", "j", "shuffle"))
+        if rng.random() < 0.3:
+            o["shuffle_seed"] = rng.randint(0, 10 ** 6)
         o["verbose"] = rng.choice([0, 1, 2])
+        lv = rng.random()
+        if lv < 0.15:
+            o["at_level"] = rng.choice([0, 2, 3])
+        elif lv < 0.25:
+            o["all"] = True
+        elif lv < 0.35:
+            o["only_level"] = rng.choice([0, 1, 2, 3])
         r = rng.random()
         names = [worlds.layer_name(w, i) for i in range(len(w["layers"]))]
         if r < 0.2:
